@@ -18,7 +18,7 @@ type c06res struct {
 	obs impl.Full
 }
 
-func c06Three(base, ref string) (r [3]c06res, pan string) {
+func c06Three(base, ref string) (r [4]c06res, pan string) {
 	pan = safely(func() {
 		conv := func(u *url.Url, err error) c06res {
 			if err != nil || u == nil {
@@ -31,8 +31,16 @@ func c06Three(base, ref string) (r [3]c06res, pan string) {
 		b, err := url.Parse(base)
 		if err != nil {
 			r[2] = c06res{}
+			r[3] = c06res{}
 		} else {
 			r[2] = conv(b.Parse(ref))
+			// the same base *value* after read-only use (its parameter list has been looked at, it has already
+			// served as a base): resolution must be repeatable
+			b2, _ := url.Parse(base)
+			_ = b2.SearchParams().Has("x")
+			_, _ = b2.Parse("other/ref?x#y")
+			_, _ = b2.Parse(ref)
+			r[3] = conv(b2.Parse(ref))
 		}
 	})
 	return
@@ -49,6 +57,9 @@ func c06Eval(base, ref, kind string) (*fw.Finding, bool) {
 	}
 	if r[0] != r[1] || r[0] != r[2] {
 		return fw.F("c06:entry-points-disagree", s, "%s: url.ParseRef ok=%v %q; Parser.ParseRef ok=%v %q; base.Parse ok=%v %q", how, r[0].ok, r[0].obs.Href, r[1].ok, r[1].obs.Href, r[2].ok, r[2].obs.Href), false
+	}
+	if r[0] != r[3] {
+		return fw.F("c06:not-repeatable", s, "%s: url.ParseRef ok=%v %q, but the base value after read-only use (SearchParams().Has, two earlier resolutions) gives ok=%v %q", how, r[0].ok, r[0].obs.Href, r[3].ok, r[3].obs.Href), false
 	}
 	bu, err := url.Parse(base)
 	if err != nil {
@@ -141,7 +152,7 @@ func init() {
 		ID:    "C06",
 		Level: "exploration",
 		Rule: "bases = the 40-string base menu and the slot product with <=2 deviating slots; references = '', '#f' and '?q' for every f, q of Sigma^<=2, every scheme-less reference of (Sigma minus ':')^<=k, and the serialization of every parsed base (B x B). " +
-			"Model-free relational oracles: url.ParseRef, Parser.ParseRef and (*Url).Parse agree on error-ness and all observables; Href(u) resolves to u against any base; '' gives the base without fragment; '#f' changes only the fragment and is the only relative reference an opaque-path base accepts; '?q' keeps scheme/credentials/host/port/path and drops the fragment; scheme-less references keep the base's scheme. " +
+			"Model-free relational oracles: url.ParseRef, Parser.ParseRef and (*Url).Parse agree on error-ness and all observables, also when the base value has been used read-only before (parameter list inspected, earlier resolutions); Href(u) resolves to u against any base; '' gives the base without fragment; '#f' changes only the fragment and is the only relative reference an opaque-path base accepts; '?q' keeps scheme/credentials/host/port/path and drops the fragment; scheme-less references keep the base's scheme. " +
 			"non-trivial = (base, reference) pairs whose resolution succeeds",
 		Assume:  []string{"implementation against itself: no reference model involved"},
 		Trusted: []string{},
